@@ -59,7 +59,8 @@ class AstToSqlVisitor(visitor.NodeVisitor):
 
     def visit_DateTime(self, node: ast.DateTime) -> str:
         ":meta private:"
-        sql_ts = node.val.replace("T", " ")
+        # The lexer is case insensitive: normalise `t` and `z` before rewriting.
+        sql_ts = node.val.upper().replace("T", " ")
         # Single quotes for datetime constants acc SQL Standard
         return f"TIMESTAMP '{sql_ts}'"
 
